@@ -1,1 +1,8 @@
-
+import UnifexModel.Core.Admit
+import UnifexModel.Core.Reflect
+import UnifexModel.Core.Sched
+import UnifexModel.Driver.Registry
+import UnifexModel.Props.C01
+import UnifexModel.Props.C03
+import UnifexModel.Props.C05
+import UnifexModel.Props.C20
